@@ -23,7 +23,7 @@ Init == /\ stream \in Streams
 Avail == Len(stream) - pos
 Fail(reason) == /\ st' = "error" /\ why' = reason
                 /\ UNCHANGED <<stream, line, left, last, out, lenient>>
-\* end of stream inside the terminator: all data has arrived (lenient reading, see HttpFraming!ParseFrom)
+\* end of stream inside the terminator: all data has arrived (lenient reading, see HttpFraming!ParseStep)
 DoneCut == /\ st' = "done" /\ lenient' = TRUE
            /\ UNCHANGED <<stream, line, left, last, out, why>>
 
